@@ -429,6 +429,12 @@ func (n *not) Execute(searcher index.GetSearcher, seriesID common.SeriesID, tr *
 	return all, allTS, err
 }
 
+// ShouldSkip never prunes: a block summary (bloom filter, dictionary, min/max) can only show
+// that a value is absent from a block, which says nothing about rows that differ from it.
+func (n *not) ShouldSkip(_ index.FilterOp) (bool, error) {
+	return false, nil
+}
+
 func (n *not) MarshalJSON() ([]byte, error) {
 	data := make(map[string]interface{}, 1)
 	data["not"] = n.Inner
